@@ -25,6 +25,9 @@ fn check_cfg(ctx: &Ctx, cfg: &Cfg, dp: usize) -> CfgOut {
     let mut out = JobOut::default();
     let mut alpha = generic_alphabet(cfg.kind, false);
     alpha.push(continuation_alphabet(cfg.kind)[3]); // a NaN-carrying input
+    // a value 10^7 times larger: once it has left the window the running sums carry its rounding
+    // residue, which a "recompute derived state on load" deserializer would silently drop
+    alpha.push(if cfg.kind.has_scalar() { Op::S(33_000_000.7) } else { Op::B(Bar { o: 3.3e7, h: 4.4e7 + 0.3, l: 2.2e7 + 0.1, c: 33_000_000.7, v: 1.0e3 + 0.7 }) });
     let alpha = with_reset(alpha);
     let cont: Vec<Op> = continuation_alphabet(cfg.kind)[..3].to_vec();
     let n = cfg.max_period();
@@ -340,7 +343,7 @@ pub fn run(ctx: &Ctx) -> CheckResult {
     res.extra.insert("checkpoints".into(), json!(rows));
     res.extra.insert("distinct_checkpoint_states_total".into(), json!(total_cp));
     res.rule = "case = (configuration, checkpoint history, continuation): the real indicator after the history is serialized with bincode and deserialized once and twice; every continuation of n+2 inputs over 3 values is fed to the original (rebuilt by replay) and both restored copies, outputs compared at 1e-12 relative; checkpoints de-duplicated by concrete state; non-trivial = checkpoint history at least as long as the window".into();
-    res.bounds = format!("all 22 indicators, periods 1..4 (tuples over {{1,2,3}}), every history in seq(4 values + NaN + reset, {dp}) as checkpoint, all 3^(n+2) continuations; long-history family: every prefix length 0..=3n+3 of 2 default streams (with resets and a NaN) as checkpoint for periods up to 64/257 (defaults 9,10,14,20,22,12/26/9 included), 3 continuations of n+2 inputs; all 10^5 lattice DataItems that build() accepts");
+    res.bounds = format!("all 22 indicators, periods 1..4 (tuples over {{1,2,3}}), every history in seq(4 values + NaN + a 3.3e7 spike + reset, {dp}) as checkpoint, all 3^(n+2) continuations; long-history family: every prefix length 0..=3n+3 of 2 default streams (with resets and a NaN) as checkpoint for periods up to 64/257 (defaults 9,10,14,20,22,12/26/9 included), 3 continuations of n+2 inputs; all 10^5 lattice DataItems that build() accepts");
     res.assumptions = vec!["bincode 1.3 is the serialization format exercised (the property names it)".into()];
     res
 }
